@@ -123,6 +123,7 @@ let tie_of (x : sx) : ev -> ev -> bool =
       let k = int_of_z (zi k) in
       (fun a b -> match a, b with Leaf (_, l1), Leaf (_, l2) -> zmod (int_of_z l1) k = zmod (int_of_z l2) k | _ -> false)
   | L [A "always"] -> (fun _ _ -> true)
+  | L [A "samekind"] -> (fun a b -> (match a with Leaf _ -> true | _ -> false) = (match b with Leaf _ -> true | _ -> false))
   | L [A "samedur"] -> (fun a b -> int_of_z (dur a) = int_of_z (dur b))
   | _ -> failwith "tie condition"
 
@@ -152,6 +153,15 @@ let rec apply_op (t : ev) (op : sx) : ev res =
   | L [A "add"; o] -> seq_add t (tree o)
   | L [A "remove_by"; c] -> (match t with Leaf _ -> Err EAttributeError | _ -> Ok (remove_by (keep_of c) t))
   | L [A "tie_by"; c; rm] -> (match t with Leaf _ -> Err EAttributeError | _ -> Ok (tie_by (tie_of c) (bi rm) t))
+  | L [A "tie_all"; c; rm] -> tie_all (tie_of c) (bi rm) t
+  | L [A "geti"; i] -> get_int t (zi i)
+  | L [A "seti"; i; x] -> (match t with Leaf _ -> Err ETypeError | _ -> set_int t (zi i) (tree x))
+  | L [A "deli"; i] -> (match t with Leaf _ -> Err ETypeError | _ -> del_int t (zi i))
+  | L [A "pyslice"; a; b] ->
+      let ob (x : sx) = (match x with A "none" -> None | _ -> Some (zi x)) in
+      (match t with Leaf _ -> Err ETypeError | _ -> Ok (py_slice t (ob a) (ob b)))
+  | L [A "mul"; n] -> (match t with Leaf _ -> Err ETypeError | _ -> Ok (ev_mul t (zi n)))
+  | L [A "gadd"; o] -> generic_add t (tree o)
   | L [A "set_tag"; tg; n] ->
       (match set_by_tag (children t) (zi tg) (tree n) with Ok cs -> Ok (with_children t cs) | Err k -> Err k)
   | L [A "del_tag"; tg] ->
